@@ -108,8 +108,32 @@ func (p *c19) RunCase(ctx *runner.Ctx) runner.CaseResult {
 			}
 			seen[s.Name+key.Canon()] = true
 			kc, _ := m.Tables[s.Name].KeyCanon(key)
-			if _, ok := m.Tables[s.Name].Items[kc]; ok {
+			if stored, ok := m.Tables[s.Name].Items[kc]; ok {
 				present++
+				if r.Intn(3) == 0 {
+					// overwrite with ALMOST the stored item: one non-key scalar keeps its text and changes its TYPE
+					// (S "42" <-> N "42" <-> B "42"), or nothing changes at all
+					it = stored.Clone()
+					for _, a := range []string{"v", "g", "s"} {
+						if _, isKey := key[a]; isKey {
+							continue
+						}
+						if v, ok := it[a]; ok && a == "v" && r.Intn(2) == 0 {
+							switch v.K {
+							case val.KN:
+								it[a] = val.Str(v.Str)
+							case val.KS:
+								if _, err := val.ParseDec(v.Str); err == nil {
+									it[a] = val.Num(v.Str)
+								} else {
+									it[a] = val.Bin(v.Str)
+								}
+							}
+							break
+						}
+					}
+					x.r.Counters["near_identical_overwrites"]++
+				}
 			} else {
 				absent++
 			}
